@@ -5,6 +5,7 @@ import (
 	"net/http"
 	"net/http/httptest"
 	"net/url"
+	"strings"
 
 	"github.com/gookit/rux"
 
@@ -90,6 +91,16 @@ func c11Gen(tier string, emit func(c11Case)) {
 	for _, enc := range []bool{false, true} {
 		for _, strict := range []bool{false, true} {
 			emit(c11Case{Kind: "encoded", Strict: strict, Enc: enc, L: 4})
+		}
+	}
+	for _, strict := range []bool{false, true} {
+		// long paths: every length up to 300 (lookup keys, buffers and limits must not depend on the length)
+		for lo := 1; lo <= 300; lo += 20 {
+			emit(c11Case{Kind: "long", Strict: strict, L: lo})
+		}
+		// InterceptAll(p) with the route registered under the same string p, in every option order
+		for _, g := range c11Get(3).strs {
+			emit(c11Case{Kind: "intercept", Strict: strict, P: g, L: 2})
 		}
 	}
 	for _, strict := range []bool{false, true} {
@@ -248,6 +259,102 @@ func c11Run(c c11Case, st *fw.Stats) []fw.Viol {
 				}
 			}
 		}
+	case "long":
+		for k := c.L; k < c.L+20; k++ {
+			for _, shape := range []string{"static", "segments", "dynamic"} {
+				var p, hit string
+				switch shape {
+				case "static":
+					p = "/" + strings.Repeat("a", k)
+					hit = p
+				case "segments":
+					p = strings.Repeat("/ab", (k+2)/3)
+					hit = p
+				default:
+					p = "/" + strings.Repeat("a", k) + "/{x}"
+					hit = "/" + strings.Repeat("a", k) + "/7"
+				}
+				np := refmodel.Norm(p, c.Strict)
+				for _, m := range []string{"GET", "DELETE", "OPTIONS"} {
+					var r *rux.Router
+					if pv := try(func() {
+						r = rux.New(c11Opts(c.Strict)...)
+						r.Add(p, h, m)
+					}); pv != nil {
+						add("register:panic", fmt.Sprintf("strict=%v: registering %s %q (%d bytes) panicked: %v", c.Strict, m, p, len(p), pv))
+						continue
+					}
+					for _, q := range []string{hit, hit + "/", hit + "x", hit[:len(hit)-1], hit + "/a/b", " " + hit + " ", "/" + hit, hit + "//", hit[:len(hit)/2]} {
+						st.Evals++
+						var want bool
+						if shape == "dynamic" {
+							pt, err := refmodel.CachedPattern(np)
+							if err != nil {
+								panic(err)
+							}
+							want = pt.Matches(refmodel.Norm(q, c.Strict))
+						} else {
+							want = refmodel.Norm(q, c.Strict) == np
+						}
+						if want {
+							st.Nontrivial++
+						}
+						var got bool
+						if pv := try(func() { rt, _, _ := r.Match(m, q); got = rt != nil }); pv != nil {
+							add("lookup:panic", fmt.Sprintf("strict=%v: %s route %q: Match(%q) panicked: %v", c.Strict, m, p, q, pv))
+						} else if got != want {
+							add(fmt.Sprintf("long:reach:want=%v", want), fmt.Sprintf("strict=%v: %s route of %d bytes %q: request path of %d bytes %q (normal form %q) reaches it = %v, expected %v", c.Strict, m, len(p), p, len(q), q, refmodel.Norm(q, c.Strict), got, want))
+						}
+					}
+				}
+			}
+		}
+		st.Max("max_path_bytes", int64(c.L+19+3))
+	case "intercept":
+		// every request is resolved as a request for p: with the route registered under the very same string it is always reached
+		np := refmodel.Norm(c.P, c.Strict)
+		reqs := c11Get(c.L).strs
+		for order := 0; order < 4; order++ {
+			if order > 0 && !c.Strict {
+				continue // without StrictLastSlash there is only one option
+			}
+			var r *rux.Router
+			if pv := try(func() {
+				switch order {
+				case 0:
+					r = rux.New(append(c11Opts(c.Strict), rux.InterceptAll(c.P))...)
+				case 1:
+					r = rux.New(rux.InterceptAll(c.P), rux.StrictLastSlash)
+				case 2:
+					r = rux.New(rux.InterceptAll(c.P))
+					r.WithOptions(rux.StrictLastSlash)
+				default:
+					r = rux.New(rux.StrictLastSlash)
+					r.WithOptions(rux.InterceptAll(c.P))
+				}
+				r.GET(c.P, h)
+			}); pv != nil {
+				add("intercept:panic", fmt.Sprintf("strict=%v: InterceptAll(%q) + GET(%q) (option order %d) panicked: %v", c.Strict, c.P, c.P, order, pv))
+				continue
+			}
+			orderName := []string{"StrictLastSlash?, InterceptAll", "InterceptAll, StrictLastSlash", "New(InterceptAll) then WithOptions(StrictLastSlash)", "New(StrictLastSlash) then WithOptions(InterceptAll)"}[order]
+			for _, q := range reqs {
+				st.Evals++
+				want := strings.TrimSpace(c.P) != "" // InterceptAll("") switches interception off
+				if !want {
+					want = refmodel.Norm(q, c.Strict) == np
+				}
+				if want {
+					st.Nontrivial++
+				}
+				var got bool
+				if pv := try(func() { rt, _, _ := r.Match("GET", q); got = rt != nil }); pv != nil {
+					add("intercept:panic", fmt.Sprintf("strict=%v options [%s]: InterceptAll(%q): Match(GET,%q) panicked: %v", c.Strict, orderName, c.P, q, pv))
+				} else if got != want {
+					add(fmt.Sprintf("intercept:reach:want=%v", want), fmt.Sprintf("strict=%v options [%s]: InterceptAll(%q) with the route registered as GET %q (normal form %q): request %q reaches it = %v, expected %v", c.Strict, orderName, c.P, c.P, np, q, got, want))
+				}
+			}
+		}
 	case "encoded":
 		toks := []string{"/", "a", "%2F", "%20", " ", "%2f", "b", "|", "%7C"}
 		var opts []func(*rux.Router)
@@ -306,7 +413,7 @@ var c11Spec = fw.Spec[c11Case]{
 	ID:    "C11",
 	Level: "model_checking",
 	Rule: "complete enumeration: ALL strings of length <=L over {'/',' ','.','a','b',TAB} as registered path P and as request path Q - the full P x Q square in both StrictLastSlash modes (one evaluation = one GET and one HEAD lookup of Q on a router holding GET P; reach <=> Norm(Q)==Norm(P)); " +
-		"all G x P x Q over strings of length <=3 for group prefixes and all nested G1 x G2 x P over strings of length <=2; all raw paths of <=4 tokens over {/,a,b,%2F,%2f,%20,space,|,%7C}, each with four RequestURI values (absent, equal, stale prefix, *) under both UseEncodedPath settings; non-trivial = a (P,Q) pair that must reach the route / an escaped path that differs from the decoded one",
+		"all G x P x Q over strings of length <=3 for group prefixes and all nested G1 x G2 x P over strings of length <=2; all raw paths of <=4 tokens over {/,a,b,%2F,%2f,%20,space,|,%7C}, each with four RequestURI values (absent, equal, stale prefix, *) under both UseEncodedPath settings; static, multi-segment and dynamic routes of every length 1..300 bytes under three methods with nine request variations each; InterceptAll(p) with the route registered as p for all strings p of length <=3, in every option order, against all requests of length <=2; non-trivial = a (P,Q) pair that must reach the route / an escaped path that differs from the decoded one",
 	Assume: []string{"alphabet of 6 characters; L=5 quick, 6 thorough", "net/url's EscapedPath is taken as the definition of 'the escaped path'"},
 	Bounds: func(tier string) map[string]any {
 		L := 5
